@@ -270,7 +270,13 @@ mod tests {
         assert_eq!(parse(big).map(|l| render(&l)), Some(big.to_string()));
         assert_eq!(parse("$['a'"), None);
         assert_eq!(parse("$[01]"), None);
-        assert_eq!(parse("$[-1]"), None);
+        // a negative index step is judged as a step no location has; `-0` and `-01` are not index steps
+        assert_eq!(parse("$[-1]"), Some(vec![Step::Big("-1".into())]));
+        assert_eq!(parse("$['a'][-12]").map(|l| render(&l)), Some("$['a'][-12]".to_string()));
+        assert_eq!(walk(&serde_json::json!([1, 2]), &parse("$[-1]").unwrap()), None);
+        assert_eq!(parse("$[-0]"), None);
+        assert_eq!(parse("$[-01]"), None);
+        assert_eq!(parse("$[-]"), None);
         assert_eq!(parse("$.a"), None);
         assert_eq!(parse("$[\"a\"]"), None);
         assert_eq!(parse("$['\\u000B']"), None);
